@@ -440,9 +440,61 @@ func c15Deep(c *core.Ctx, i int64, depth int, fault bool) {
 	c.Nontrivial(core.Hash("deep", depth, fault))
 }
 
+// c15Filled: nested blocks whose destination field is already filled in (an interface holding a
+// struct by value or by pointer, a non-nil pointer to a struct, a nil one): never a panic, and nil
+// only if the values really arrived in a struct.
+func c15Filled(c *core.Ctx, i int64, k int) {
+	type inner struct{ X int }
+	type filled struct {
+		Name string
+		I    any
+		P    *inner
+		Q    **inner
+		S    inner
+	}
+	t := &filled{}
+	ip := &inner{X: 8}
+	switch k % 6 {
+	case 0:
+		t.I = inner{X: 7}
+	case 1:
+		t.I = &inner{X: 7}
+	case 2:
+		t.P = ip
+	case 3:
+		t.Q = &ip
+	case 4:
+		t.I = struct{ X int }{7}
+	}
+	key := []string{"i", "i", "p", "q", "i", "s"}[k%6]
+	b := bcl.Block{Type: "filled", Fields: map[string]any{key: bcl.Block{Type: "inner", Fields: map[string]any{"x": 5}}}}
+	if k >= 6 {
+		b.Fields[key] = bcl.Block{Type: key, Fields: map[string]any{"x": 5}}
+	}
+	var err error
+	pan, stack := protect(func() { err = bcl.Bind(t, bcl.StructBinding{Value: b}) })
+	c.Eval(1)
+	if pan != "" {
+		c.Violation(panicSig(pan, stack), fmt.Sprintf("Bind panicked with a nested block for an already filled-in %s destination: %s", key, pan), nil)
+		return
+	}
+	if err == nil {
+		if p, skip := checkStored(b, reflect.ValueOf(t).Elem()); !skip && p != "" {
+			c.Violation("silent-drop-or-coercion", "Bind returned nil although "+p, nil)
+			return
+		}
+	}
+	c.Count("filled_in_destinations", 1)
+	c.Nontrivial(core.Hash("filled", k))
+}
+
 func c15Case(c *core.Ctx, i int64, r *rand.Rand) {
 	if i < 60 {
 		c15Deep(c, i, 10+int(i)/2, i%2 == 1)
+		return
+	}
+	if i < 72 {
+		c15Filled(c, i, int(i-60))
 		return
 	}
 	var bd bcl.Binding
